@@ -165,7 +165,12 @@ def code_to_spec(ctx, gridmod, n):
             recs.append({"kind": "intersect", "fr": fr, "fc": fc, "cells": cells, "g": g, "out_cells": [], "out_counts": [],
                          "ag": {"row_start": 0, "row_end": 0, "col_start": 0, "col_end": 0, "data": [], "xll": 0, "yll": 0}})
         npts = int(rng.integers(1, 7))
-        pts = [[int(rng.integers(-4, 2 * fc + 4)) * 2, int(rng.integers(-4, 2 * fr + 4)) * 2] for _ in range(npts)]
+        if rng.random() < 0.5:
+            pts = [[int(rng.integers(-4, 2 * fc + 4)) * 2, int(rng.integers(-4, 2 * fr + 4)) * 2] for _ in range(npts)]
+        else:
+            # quarter-cell lattice, clustered around one cell centre
+            cx, cy = int(rng.integers(0, fc)) * 4 + 2, int(rng.integers(0, fr)) * 4 + 2
+            pts = [[cx + int(rng.integers(-3, 4)), cy + int(rng.integers(-3, 4))] for _ in range(npts)]
         if rng.random() < 0.3 and npts > 1:
             pts[1] = list(pts[0])
         w = gridmod.voronoi(cat, np.array([[fxll + p[0] * q, fyll + p[1] * q] for p in pts]))
@@ -195,7 +200,7 @@ def run(ctx):
     ctx.code()
     from hydrodiy.gis import grid as gridmod
     ctx.rule = ("S->C: every subset of the cells of the fine grid (3x3; 3x4 thorough) as catchment area x 9 coarser grids (ratios 1-4, quarter-cell "
-                "offsets, partial and no overlap) x 6 point sets (coincident with centres, equidistant, duplicate, far outside), replayed through "
+                "offsets, partial and no overlap) x 9 point sets (coincident with centres, equidistant, duplicate, far outside), replayed through "
                 "Catchment.intersect (weights, listed cells, area-grid placement and georeferencing) and voronoi under several exact geometries; "
                 "C->S: random fine grids up to 12x12 with really delineated (filled/unfilled) catchments, random coarse grids and 1-6 points "
                 "validated by GridWeightsTrace.tla. non-trivial = catchment of at least two cells.")
